@@ -4,9 +4,10 @@
 
    A history is a list of catalog operations [cop]: every public Linker operation of C07 ([COp]),
    register_table, dropping a named table through a SplinkDataFrame, realtime compare_records.
-   [cop_safe] is the guard of the theorems: the caller never passes overwrite=True / force, does not
-   itself change its input rows, debug mode is off, and the realtime cached-SQL path is not used
-   (the last two are the refuted finding classes below). *)
+   [cop_safe fx] is the guard of the theorems: the caller never passes overwrite=True / force, does not
+   itself change its input rows, debug mode is off, and the realtime cached-SQL path is used only on the
+   repaired tree (fx715 fx = true, fix b2f0593c) - debug mode and the unrepaired cached path are the refuted
+   finding classes below. *)
 From Coq Require Import List Bool Arith String.
 From Splinkv Require Import Model.Cache Model.Catalog Proofs.CacheP Proofs.CatalogP.
 Import ListNotations.
@@ -25,7 +26,7 @@ Section C18.
      safe history of any length *)
   Theorem C18_user_tables_untouched :
     forall inputs ver others tfcols params uid luid fx cs,
-      forallb cop_safe cs = true ->
+      forallb (cop_safe fx) cs = true ->
       let s0 := cinit K inputs ver others tfcols params uid luid fx in
       forall l e, aget K keqb (st_db K s0) (PL K l) = Some e ->
                   aget K keqb (st_db K (crun K keqb hash s0 cs)) (PL K l) = Some e.
@@ -34,7 +35,7 @@ Section C18.
   (* ... and so does every table the caller registers on the way (lookups, new records, register_table) *)
   Theorem C18_registered_tables_untouched :
     forall inputs ver others tfcols params uid luid fx cs1 cs2,
-      forallb cop_safe (cs1 ++ cs2) = true ->
+      forallb (cop_safe fx) (cs1 ++ cs2) = true ->
       let s0 := cinit K inputs ver others tfcols params uid luid fx in
       forall l e, aget K keqb (st_db K (crun K keqb hash s0 cs1)) (PL K l) = Some e ->
                   aget K keqb (st_db K (crun K keqb hash s0 (cs1 ++ cs2))) (PL K l) = Some e.
@@ -61,7 +62,7 @@ Section C18.
      table of Splink origin is left, no hashed name is left, and every other entry is exactly as before *)
   Theorem C18_cleanup_exact :
     forall inputs ver others tfcols params uid luid fx cs,
-      forallb cop_safe cs = true ->
+      forallb (cop_safe fx) cs = true ->
       let s := crun K keqb hash (cinit K inputs ver others tfcols params uid luid fx) cs in
       forall c, c = COp DeleteTables \/ c = COp InvalidateCache ->
         let s' := fst (cstep K keqb hash s c) in
@@ -108,7 +109,11 @@ Theorem C18_cleanup_exact_refuted_realtime_cached_path :
              splink_tables KI s <> [].
 Proof. exists [CRealtime false; CRealtime true]. cbv zeta. intros H. vm_compute in H. discriminate H. Qed.
 Print Assumptions C18_cleanup_exact_refuted_realtime_cached_path.
-(* with the table tracked (repaired tree) the same history is cleaned up *)
+(* with the table tracked (repaired tree) the same history is inside the guard, so C18_cleanup_exact applies *)
+Example C18_realtime_cached_path_guard :
+  forallb (cop_safe (fxs true)) [CRealtime false; CRealtime true] = true /\
+  forallb (cop_safe (fxs false)) [CRealtime false; CRealtime true] = false.
+Proof. split; reflexivity. Qed.
 Example C18_realtime_cached_path_repaired :
   splink_tables KI (crun KI keqbI hashI (c0 true) [CRealtime false; CRealtime true; COp DeleteTables]) = [].
 Proof. vm_compute. reflexivity. Qed.
@@ -122,9 +127,10 @@ Proof. vm_compute. reflexivity. Qed.
 (* ------------------------------------------------------------------ non-vacuity *)
 Definition example_catalog_history : list cop :=
   [COp Predict; CRegisterTable "caller_t1" false 1; CRegisterTable "customers" false 2; CDropTable "r" false;
-   COp (RegisterTF "first_name" 1); COp FindMatches; COp (CompareTwo false); CRealtime false; COp (Cluster 0);
+   COp (RegisterTF "first_name" 1); COp FindMatches; COp (CompareTwo false); CRealtime false; CRealtime true; COp (Cluster 0);
+   COp AccuracyColumn; COp (EstimateMColumn 5); COp (GraphMetrics 0); COp Unlinkables;
    COp (EstimateU 1 1); COp (EstimateEM 0 2); COp DeleteTables; COp Predict; COp InvalidateCache].
-Example C18_example_guard : forallb cop_safe example_catalog_history = true.
+Example C18_example_guard : forallb (cop_safe (fxs true)) example_catalog_history = true.
 Proof. vm_compute. reflexivity. Qed.
 (* the history creates Splink tables (so the cleanup theorems are not about an empty catalog) *)
 Example C18_example_creates_tables :
